@@ -16,6 +16,17 @@ theorem k_guard_safe : ∀ s, Reach (sys cfgGuard) s → safe cfgGuard s = true 
 theorem k_dtors_safe : ∀ s, Reach (sys cfgDtors) s → safe cfgDtors s = true :=
   safe_of_check _ { coded with M := 127 } 400 _ (by decide +kernel)
 
+/-- the guard returned by alive() is moved into a second guard object and the moved-from object is
+    destroyed before the guarded work: all of `safe` again — in particular `~canary` still does not
+    return while the (moved-to) guard is held, and the moved-from guard refers to nothing -/
+theorem k_move_safe : ∀ s, Reach (sys cfgMove) s → safe cfgMove s = true :=
+  safe_of_check _ { coded with M := 251 } 400 _ (by decide +kernel)
+
+/-- `guard_blocks_destructor_while_held` across a move of the guard -/
+theorem guard_move_keeps_blocking :
+    ∀ s, Reach (sys cfgMove) s → (s.guardHeld = true → s.canaryFreed = false) ∧ (s.g1 = true → s.g2 = false) :=
+  fun s h => let r := safe_spelled cfgMove s (k_move_safe s h); ⟨r.2.1, r.2.2.2.2.2.1⟩
+
 theorem canary_no_deadlock :
     ∀ s, Reach (sys cfgGuard) s → ((sys cfgGuard).next s).isEmpty = true → final cfgGuard s = true :=
   fun s h => (safe_spelled cfgGuard s (k_guard_safe s h)).2.2.2.1
@@ -33,6 +44,13 @@ theorem canary_dead_iff_destroyed :
 example : ∃ s, Reach (sys cfgGuard) s ∧
     (s.guardHeld && decide (s.pcn = 6) && decide (((sys cfgGuard).next s).length = 1)) = true :=
   reach_of_choices _ [0, 1, 1, 1, 1, 1] _ (by decide +kernel)
+
+/-- non-vacuity (k_move): the moved-from guard has been destroyed, the moved-to guard is held and
+    ~canary is blocked in its spin. -/
+example : ∃ s, Reach (sys cfgMove) s ∧
+    (s.guardHeld && s.g2 && !s.g1 && decide (s.pw = 12) && decide (s.pcn = 6) &&
+      decide (((sys cfgMove).next s).length = 1)) = true :=
+  reach_of_choices _ [0, 0, 1, 1, 1, 1, 1] _ (by decide +kernel)
 
 /-- … and the deadlock-resolution path (watcher holds canary_, canary holds watcher_ and yields) runs
     to the end. -/
